@@ -54,6 +54,14 @@ func genOrigin(rt *rapid.T, label string) string {
 	if s == "" {
 		s = "x"
 	}
+	// origins are opaque strings: surrounding whitespace is part of the origin on every
+	// interface or on none
+	switch vlib.Uniform(rt, 8, label+"_pad") {
+	case 0:
+		s = s + " "
+	case 1:
+		s = " " + s
+	}
 	return s
 }
 
